@@ -78,7 +78,7 @@ Lemma convert_number_elems cur xs : elems cur = Some xs -> convert_number cur = 
 Proof.
   intros H.
   destruct (elems_cases cur xs H) as [[t [n ->]]|[[t ->]|[[t [n ->]]|[t ->]]]];
-    unfold convert_number, convert_number_check; cbn;
+    unfold convert_number, convert_number_check, convert_number_check_base; cbn;
     repeat match goal with |- context [if ?b then _ else _] => destruct b end; reflexivity.
 Qed.
 
